@@ -197,6 +197,14 @@ class Ctx:
         self.obligations.append(ob)
         return ob
 
+    def oblige_without(self, name, goal, excluded, kind="lemma", note=""):
+        """obligation whose hypotheses exclude the given formulas (used to prove a lemma that is itself
+        available as a fact elsewhere - no circularity)"""
+        ob = self.oblige(name, goal, kind, note)
+        if ob.status is None:
+            ob.hyps = [h for h in ob.hyps if not any(z3.eq(h, e) for e in excluded)]
+        return ob
+
     def require(self, name, goal, kind="safe", note=""):
         """obligation that is *assumed* afterwards (like assert): later code may rely on it"""
         ob = self.oblige(name, goal, kind, note)
